@@ -14,6 +14,9 @@ TIME_ONLY = ("TimeStamp", "TimeInterval")
 
 
 def _num(x):
+    t = type(x)
+    if t is float or t is int:  # fast path; same answer as the general test below
+        return True
     return isinstance(x, Real) and not isinstance(x, bool)
 
 
